@@ -368,10 +368,27 @@ def Cursor.rootedHere (lang : Lang) (c : Cursor) : Cursor :=
     { stack := [{ t := top.t, id := top.id, pos := top.pos }], rootAlias := al }
   | [] => c
 
-/-- `<id> <depth> <descendant index> <field>` as the explorer prints it. -/
+/-- The alias `ts_tree_cursor_current_node` gives the node: the root alias for the cursor's root,
+the parent's alias sequence otherwise, none for extras. -/
+def Cursor.currentAlias (lang : Lang) (c : Cursor) : Nat :=
+  match c.stack with
+  | top :: rest =>
+    if top.t.data.extra then 0
+    else match rest.head? with
+      | some p => lang.aliasAt p.t.data.productionId top.si
+      | none => c.rootAlias
+  | [] => 0
+
+/-- `ts_node_symbol(ts_tree_cursor_current_node(cursor))`. -/
+def Cursor.currentKind (lang : Lang) (c : Cursor) : Nat :=
+  match c.stack.head? with
+  | some top => let al := c.currentAlias lang; lang.publicSymbol (if al != 0 then al else top.t.data.symbol)
+  | none => 0
+
+/-- `<id> <kind> <depth> <descendant index> <field>` as the explorer prints it. -/
 def Cursor.state (lang : Lang) (c : Cursor) (hex : Nat → String) : String :=
   match c.stack.head? with
-  | some top => s!"{hex top.id} {currentDepth lang c} {top.descIdx} {currentFieldId lang c}"
+  | some top => s!"{hex top.id} {c.currentKind lang} {currentDepth lang c} {top.descIdx} {currentFieldId lang c}"
   | none => "?"
 
 def Cursor.posString (c : Cursor) : String :=
